@@ -358,6 +358,8 @@ trait Prim: Copy + Debug + PartialEq + Send + Sync + 'static {
     fn small(k: i64) -> Self;
     fn is_zero_ref(self) -> bool;
     fn mag(self) -> u64;
+    /// pairs of non-zero values that cancel under some fold (sum, wrapping sum, xor, and, product, float underflow)
+    fn cancel_pairs() -> Vec<(Self, Self)>;
 }
 macro_rules! prim_int { ($($P:ident $signed:expr),+) => { $(
     impl Prim for $P {
@@ -378,6 +380,13 @@ macro_rules! prim_int { ($($P:ident $signed:expr),+) => { $(
         fn small(k: i64) -> Self { if k < 0 { if $signed { (0 as $P).wrapping_sub(1) } else { 2 } } else { k as $P } }
         fn is_zero_ref(self) -> bool { self == 0 }
         fn mag(self) -> u64 { (self as i128).unsigned_abs().min(u64::MAX as u128) as u64 }
+        fn cancel_pairs() -> Vec<(Self, Self)> {
+            let h: $P = (1 as $P) << (std::mem::size_of::<$P>() * 4);          // h * h wraps to zero
+            let top: $P = <$P>::MAX / 2 + 1;                                     // unsigned: top + top wraps to zero
+            let mut v: Vec<($P, $P)> = vec![(1, <$P>::MAX), (5, 5), (1, 2), (h, h), (top, top), (<$P>::MAX, <$P>::MAX)];
+            if $signed { v.extend([(1, Self::small(-1)), (<$P>::MAX, <$P>::MIN + 1), (<$P>::MIN, <$P>::MIN), (Self::small(-1), Self::small(-1))]); }
+            v
+        }
     }
 )+ } }
 prim_int!(i8 true, u8 false, i16 true, u16 false, i32 true, u32 false, i64 true, u64 false);
@@ -394,6 +403,10 @@ macro_rules! prim_float { ($($P:ident),+) => { $(
         fn small(k: i64) -> Self { k as $P }
         fn is_zero_ref(self) -> bool { self == 0.0 }
         fn mag(self) -> u64 { if self.is_finite() { (self.abs() as f64).min(1e18) as u64 } else { u64::MAX } }
+        fn cancel_pairs() -> Vec<(Self, Self)> {
+            vec![(1.0, -1.0), (-2.5, 2.5), (<$P>::MAX, <$P>::MIN), (<$P>::INFINITY, <$P>::NEG_INFINITY), (<$P>::MIN_POSITIVE, <$P>::MIN_POSITIVE), (<$P>::MIN_POSITIVE / 4.0, -(<$P>::MIN_POSITIVE / 4.0)),
+                (<$P>::MIN_POSITIVE, -<$P>::MIN_POSITIVE), (<$P>::NAN, <$P>::NAN), (2.5, 2.5), (<$P>::MAX, <$P>::MAX), (<$P>::EPSILON, -<$P>::EPSILON)]
+        }
     }
 )+ } }
 prim_float!(f32, f64);
@@ -536,10 +549,10 @@ fn bitsv(v: &[f64]) -> Vec<String> { v.iter().map(|x| format!("{:?}", x)).collec
 /// element-wise min/max family and the 12 masks on i32 lanes; lane i holds pair[(r + i*k) mod len]
 #[inline(never)]
 fn order_i32(s: &Section, ty: &str, n: usize, sel: &dyn Fn(&[i32], &[i32], i32) -> [Vec<i32>; 8], masks: &dyn Fn(&[i32], &[i32]) -> [Vec<bool>; 24]) {
-    let alpha: Vec<i32> = if s.thorough() { vec![i32::MIN, -2, 0, 3, i32::MAX] } else { vec![-2, 0, 3] };
+    let alpha: Vec<i32> = if s.thorough() { vec![i32::MIN, i32::MIN + 1, -2, 0, 3, i32::MAX - 1, i32::MAX] } else { vec![i32::MIN, -2, 0, 3, i32::MAX] };   // audit round 2: extremes in both tiers
     let pairs: Vec<(i32, i32)> = alpha.iter().flat_map(|&x| alpha.iter().map(move |&y| (x, y))).collect();
     let mut count = 0u64;
-    let strides: &[usize] = if s.thorough() { &[1, 2, 3, 5, 7, 11] } else { &[1, 2, 5] };
+    let strides: &[usize] = if s.thorough() { &[1, 2, 3, 5, 7, 11] } else { &[1, 2, 7] };
     for r in 0..pairs.len() { for &k in strides {
         let a: Vec<i32> = (0..n).map(|i| pairs[(r + i * k) % pairs.len()].0).collect();
         let b: Vec<i32> = (0..n).map(|i| pairs[(r + i * k) % pairs.len()].1).collect();
@@ -567,7 +580,7 @@ fn order_i32(s: &Section, ty: &str, n: usize, sel: &dyn Fn(&[i32], &[i32], i32) 
 /// partial_min / partial_max and the 6 partial masks on f64 lanes incl. NaN, signed zeros, infinity
 #[inline(never)]
 fn order_f64(s: &Section, ty: &str, n: usize, sel: &dyn Fn(&[f64], &[f64]) -> [Vec<f64>; 2], masks: &dyn Fn(&[f64], &[f64]) -> [Vec<bool>; 12]) {
-    let alpha = [-1.0f64, -0.0, 0.0, 1.0, f64::INFINITY, f64::NAN];
+    let alpha = [-1.0f64, -0.0, 0.0, 1.0, f64::INFINITY, f64::NAN, f64::NEG_INFINITY, 5e-324, 1.0000000000000002];   // audit round 2: -inf, smallest subnormal, 1 + ulp
     let pairs: Vec<(f64, f64)> = alpha.iter().flat_map(|&x| alpha.iter().map(move |&y| (x, y))).collect();
     let mut count = 0u64;
     let strides: &[usize] = if s.thorough() { &[1, 2, 3, 5, 7, 11, 13] } else { &[1, 5, 7] };
@@ -606,6 +619,8 @@ fn order_reduce(s: &Section, ty: &str, n: usize, ri: &dyn Fn(&[i32]) -> [i32; 4]
     for r in 0..n { inputs.push((0..n).map(|i| ((i + r) % n) as i32).collect()); inputs.push((0..n).map(|i| ((n - 1 - i + r) % n) as i32).collect()); }
     inputs.push(vec![5; n]);
     for j in 0..n { for h in [1, -1] { let mut v = vec![0; n]; v[j] = h; inputs.push(v); } }
+    // audit round 2: the extreme values at every position, alone and against each other
+    for j in 0..n { for h in [i32::MIN, i32::MAX] { let mut v = vec![0; n]; v[j] = h; inputs.push(v.clone()); v[(j + 1) % n] = if h == i32::MIN { i32::MAX } else { i32::MIN }; inputs.push(v); } }
     let mut count = 0u64;
     for v in &inputs {
         let (mn, mx) = (*v.iter().min().unwrap(), *v.iter().max().unwrap());
@@ -939,7 +954,9 @@ trait Fl: Prim {
 macro_rules! fl_impl { ($P:ident, $close:ident, $below_half:expr, $big_odd:expr, $tiny:expr) => {
     impl Fl for $P {
         fn fun(self, k: usize) -> Self { match k { 0 => self.sqrt(), 1 => 1.0 / self.sqrt(), 2 => 1.0 / self, 3 => self.ceil(), 4 => self.floor(), _ => self.round() } }
-        fn specials() -> Vec<Self> { vec![0.0, -0.0, 0.5, -0.5, 1.5, -1.5, 2.5, -2.5, $below_half, -$below_half, -4.0, 4.0, -7.0, 2.0, 0.1, -0.1, $big_odd, -$big_odd, 1e30, <$P>::MAX, <$P>::MIN, <$P>::MIN_POSITIVE, $tiny, -$tiny, <$P>::INFINITY, <$P>::NEG_INFINITY, <$P>::NAN] }
+        fn specials() -> Vec<Self> { vec![0.0, -0.0, 0.5, -0.5, 1.5, -1.5, 2.5, -2.5, $below_half, -$below_half, -4.0, 4.0, -7.0, 2.0, 0.1, -0.1, $big_odd, -$big_odd, 1e30, <$P>::MAX, <$P>::MIN, <$P>::MIN_POSITIVE, $tiny, -$tiny, <$P>::INFINITY, <$P>::NEG_INFINITY, <$P>::NAN,
+            // audit round 2: nearly-one / nearly-integer values (a 'close enough to 1' or 'already integral' shortcut must not fire)
+            1.0 + <$P>::EPSILON, 1.0 - <$P>::EPSILON / 2.0, 1.0 - <$P>::EPSILON, 1.0000001, 0.9999999, 1.0 + 4.0 * <$P>::EPSILON, 2.0 - <$P>::EPSILON, 2.0 + 2.0 * <$P>::EPSILON, -1.0 - <$P>::EPSILON, -1.0 + <$P>::EPSILON / 2.0, 1.5 - <$P>::EPSILON, 2.5 + 2.0 * <$P>::EPSILON, <$P>::EPSILON, -<$P>::EPSILON] }
         fn close(got: Self, want: Self) -> bool { vx::fl::$close(got, want as f64, want as f64) }
         fn finite_nonzero(self) -> bool { self.is_finite() && self != 0.0 }
     }
@@ -1130,6 +1147,238 @@ macro_rules! concrete_ty { ($s:expr, $V:ident, $name:literal, $N:expr, $kind:ide
     run($s);
 }} }
 
+// ================================================================================================
+// AUDIT ROUND 2: sections added after the adversarial second pass (see out/AUDIT2.md)
+// ================================================================================================
+
+// ------------------------------------------------------------------------------------------------
+// 14. as_ / numcast on conversion pairs where a detour through i64 / u64 / f64 / f32 changes the answer
+// ------------------------------------------------------------------------------------------------
+/// float results are compared as bit patterns (every NaN canonicalised)
+fn cb32(x: f32) -> u32 { if x.is_nan() { 0x7fc0_0000 } else { x.to_bits() } }
+fn cb64(x: f64) -> u64 { if x.is_nan() { 0x7ff8_0000_0000_0000 } else { x.to_bits() } }
+/// 2^60 + 2^36 + 1: rounds UP to f32 directly (just above the tie) but to 2^60 when first rounded to f64 (exact tie, then to even)
+const DR: i64 = (1i64 << 60) + (1 << 36) + 1;
+fn cast2_f64() -> Vec<f64> { vec![0.1, -2.75, 0.5, -0.0, 1.0 + 1.0 / 16777216.0, 1.0 + 3.0 / 16777216.0, 16777217.0, 1e-50, 5e-324, 1e39, -1e39, 3.4028235677973366e38, f64::MAX, 9223372036854775808.0,
+    18446744073709551616.0, 9007199254740994.0, 4294967296.5, -0.99, -1.0, f64::NAN, f64::INFINITY, f64::NEG_INFINITY] }
+fn cast2_f32() -> Vec<f32> { vec![0.1, -2.75, 0.5, -0.0, 1e-45, f32::MAX, f32::MIN_POSITIVE, 16777216.0, 1.5, 3e9, -3e9, 1e20, 9.223372e18, f32::NAN, f32::INFINITY, f32::NEG_INFINITY] }
+fn cast2_u64() -> Vec<u64> { vec![0, 1, 255, (1 << 53) + 1, (1 << 63) - 1, 1 << 63, (1 << 63) + 1, u64::MAX - 1, u64::MAX, 12345678901234567, DR as u64, (1 << 24) + 1] }
+fn cast2_i64() -> Vec<i64> { vec![0, 1, -1, DR, -DR, DR - 1, DR - 2, (1 << 53) + 1, -(1 << 53) - 1, i64::MAX, i64::MAX - 1, i64::MIN, i64::MIN + 1, (1 << 25) + 1, 33554435, -129, 4294967296] }
+macro_rules! cast2_ty { ($s:expr, $V:ident, $name:literal, $N:expr, $kind:ident, [$($i:tt)+]) => {{
+    #[inline(never)]
+    fn run(s: &Section) {
+        use num_traits::NumCast;
+        let (af64, af32, au64, ai64) = (cast2_f64(), cast2_f32(), cast2_u64(), cast2_i64());
+        cast_check::<f64, u32>(s, $name, $N, "f64", "f32", &af64, 1.0, &|x| cb32(x as f32), &|x| <f32 as NumCast>::from(x).map(cb32),
+            &|l| <$V<f64>>::mk(l).as_::<f32>().de().into_iter().map(cb32).collect(), &|l| <$V<f64>>::mk(l).numcast::<f32>().map(|v| v.de().into_iter().map(cb32).collect()));
+        cast_check::<f64, u64>(s, $name, $N, "f64", "f64", &af64, 1.0, &|x| cb64(x as f64), &|x| <f64 as NumCast>::from(x).map(cb64),
+            &|l| <$V<f64>>::mk(l).as_::<f64>().de().into_iter().map(cb64).collect(), &|l| <$V<f64>>::mk(l).numcast::<f64>().map(|v| v.de().into_iter().map(cb64).collect()));
+        cast_check::<f32, u64>(s, $name, $N, "f32", "f64", &af32, 1.0, &|x| cb64(x as f64), &|x| <f64 as NumCast>::from(x).map(cb64),
+            &|l| <$V<f32>>::mk(l).as_::<f64>().de().into_iter().map(cb64).collect(), &|l| <$V<f32>>::mk(l).numcast::<f64>().map(|v| v.de().into_iter().map(cb64).collect()));
+        cast_check::<f32, i64>(s, $name, $N, "f32", "i64", &af32, 1.0, &|x| x as i64, &|x| <i64 as NumCast>::from(x),
+            &|l| <$V<f32>>::mk(l).as_::<i64>().de(), &|l| <$V<f32>>::mk(l).numcast::<i64>().map(|v| v.de()));
+        cast_check::<f64, u64>(s, $name, $N, "f64", "u64", &af64, 1.0, &|x| x as u64, &|x| <u64 as NumCast>::from(x),
+            &|l| <$V<f64>>::mk(l).as_::<u64>().de(), &|l| <$V<f64>>::mk(l).numcast::<u64>().map(|v| v.de()));
+        cast_check::<u64, u64>(s, $name, $N, "u64", "u64", &au64, 3, &|x| x, &|x| <u64 as NumCast>::from(x),
+            &|l| <$V<u64>>::mk(l).as_::<u64>().de(), &|l| <$V<u64>>::mk(l).numcast::<u64>().map(|v| v.de()));
+        cast_check::<u64, i64>(s, $name, $N, "u64", "i64", &au64, 3, &|x| x as i64, &|x| <i64 as NumCast>::from(x),
+            &|l| <$V<u64>>::mk(l).as_::<i64>().de(), &|l| <$V<u64>>::mk(l).numcast::<i64>().map(|v| v.de()));
+        cast_check::<u64, u32>(s, $name, $N, "u64", "f32", &au64, 3, &|x| cb32(x as f32), &|x| <f32 as NumCast>::from(x).map(cb32),
+            &|l| <$V<u64>>::mk(l).as_::<f32>().de().into_iter().map(cb32).collect(), &|l| <$V<u64>>::mk(l).numcast::<f32>().map(|v| v.de().into_iter().map(cb32).collect()));
+        cast_check::<i64, i64>(s, $name, $N, "i64", "i64", &ai64, 3, &|x| x, &|x| <i64 as NumCast>::from(x),
+            &|l| <$V<i64>>::mk(l).as_::<i64>().de(), &|l| <$V<i64>>::mk(l).numcast::<i64>().map(|v| v.de()));
+        cast_check::<i64, u32>(s, $name, $N, "i64", "f32 (bits)", &ai64, 3, &|x| cb32(x as f32), &|x| <f32 as NumCast>::from(x).map(cb32),
+            &|l| <$V<i64>>::mk(l).as_::<f32>().de().into_iter().map(cb32).collect(), &|l| <$V<i64>>::mk(l).numcast::<f32>().map(|v| v.de().into_iter().map(cb32).collect()));
+        cast_check::<i64, i8>(s, $name, $N, "i64", "i8", &ai64, 3, &|x| x as i8, &|x| <i8 as NumCast>::from(x),
+            &|l| <$V<i64>>::mk(l).as_::<i8>().de(), &|l| <$V<i64>>::mk(l).numcast::<i8>().map(|v| v.de()));
+        if s.wants_sample() { let l: Vec<i64> = (0..$N).map(|i| if i == $N - 1 { DR } else { i as i64 }).collect();
+            s.sample(json!({"type": $name, "lanes": l, "numcast::<f32> last lane": jd(&<$V<i64>>::mk(&l).numcast::<f32>().map(|v| v.de()[$N - 1])), "the same value rounded through f64 first": (DR as f64) as f32})); }
+    }
+    run($s);
+}} }
+
+// ------------------------------------------------------------------------------------------------
+// 15. from_iter on sources that end early / never end, slice-view trait twins, iota on more element types
+// ------------------------------------------------------------------------------------------------
+macro_rules! ctor2_ty { ($s:expr, $V:ident, $name:literal, $N:expr, $kind:ident, [$($i:tt)+]) => {{
+    #[inline(never)]
+    fn run(s: &Section) {
+        use std::borrow::{Borrow, BorrowMut};
+        use std::ops::{Deref, DerefMut};
+        const N: usize = $N;
+        const M: usize = N + 3;
+        let ta = vars(0, N);
+        let a = <$V<Term>>::mk(&ta);
+        let src = vars(300, M);
+        let (dflt, sc) = (Term::default(), Term::var(999));
+        // (a) a source that yields again after its first None: the sequence ends at the first None, the rest stays Default
+        for k in 0..=N {
+            let want: Vec<Term> = (0..N).map(|i| if i < k { src[i] } else { dflt }).collect();
+            lanes_eq(s, $name, concat!($name, " from_iter(source that yields again after its first None)"), catch(|| {
+                let (mut i, mut gap) = (0usize, false);
+                std::iter::from_fn(|| { if i == k && !gap { gap = true; return None; } let r = src[i % M]; i += 1; Some(r) }).collect::<$V<Term>>().de() }), &want);
+        }
+        // (b) sources that never end (size_hint lower bound usize::MAX): the first N items, in order
+        let pre: Vec<Term> = src[..N].to_vec();
+        lanes_eq(s, $name, concat!($name, " from_iter(endless source, size_hint (usize::MAX, None))"), catch(|| (0usize..).map(|i| src[i % M]).collect::<$V<Term>>().de()), &pre);
+        lanes_eq(s, $name, concat!($name, " from_iter(endless source, take(usize::MAX))"), catch(|| (0usize..).map(|i| src[i % M]).take(usize::MAX).collect::<$V<Term>>().de()), &pre);
+        lanes_eq(s, $name, concat!($name, " from_iter(cycle)"), catch(|| src.iter().copied().cycle().collect::<$V<Term>>().de()), &pre);
+        lanes_eq(s, $name, concat!($name, " from_iter(repeat)"), catch(|| std::iter::repeat(sc).collect::<$V<Term>>().de()), &vec![sc; N]);
+        for h in [0usize, 1, N / 2, N - 1] {
+            lanes_eq(s, $name, concat!($name, " from_iter(exact prefix chained with an endless source)"), catch(|| src[..h].iter().copied().chain((h..).map(|i| src[i % M])).collect::<$V<Term>>().de()), &pre);
+        }
+        // (c) the slice-view trait forms of as_slice / as_mut_slice (implemented as separate impls): same elements, same order, same length
+        lanes_eq(s, $name, concat!($name, " AsRef<[T]>"), catch(|| <$V<Term> as AsRef<[Term]>>::as_ref(&a).to_vec()), &ta);
+        lanes_eq(s, $name, concat!($name, " Borrow<[T]>"), catch(|| <$V<Term> as Borrow<[Term]>>::borrow(&a).to_vec()), &ta);
+        lanes_eq(s, $name, concat!($name, " Deref<Target=[T]>"), catch(|| <$V<Term> as Deref>::deref(&a).to_vec()), &ta);
+        lanes_eq(s, $name, concat!($name, " AsRef<Self>"), catch(|| <$V<Term> as AsRef<$V<Term>>>::as_ref(&a).de()), &ta);
+        let w = |t: Term, i: usize| Term::bin("w", t, Term::cst(i as i64));
+        let ww: Vec<Term> = (0..N).map(|i| w(ta[i], i)).collect();
+        lanes_eq(s, $name, concat!($name, " AsMut<[T]>"), catch(|| { let mut m = a; let l = <$V<Term> as AsMut<[Term]>>::as_mut(&mut m); let n = l.len(); for (i, e) in l.iter_mut().enumerate() { *e = w(*e, i); } let mut d = m.de(); if n != N { d.clear(); } d }), &ww);
+        lanes_eq(s, $name, concat!($name, " BorrowMut<[T]>"), catch(|| { let mut m = a; let l = <$V<Term> as BorrowMut<[Term]>>::borrow_mut(&mut m); let n = l.len(); for (i, e) in l.iter_mut().enumerate() { *e = w(*e, i); } let mut d = m.de(); if n != N { d.clear(); } d }), &ww);
+        lanes_eq(s, $name, concat!($name, " DerefMut"), catch(|| { let mut m = a; let l = <$V<Term> as DerefMut>::deref_mut(&mut m); let n = l.len(); for (i, e) in l.iter_mut().enumerate() { *e = w(*e, i); } let mut d = m.de(); if n != N { d.clear(); } d }), &ww);
+        lanes_eq(s, $name, concat!($name, " AsMut<Self>"), catch(|| { let mut m = a; { let r = <$V<Term> as AsMut<$V<Term>>>::as_mut(&mut m); r.apply(|x| Term::un("g", x)); } m.de() }), &ta.iter().map(|&x| Term::un("g", x)).collect::<Vec<_>>());
+        // (d) iota on further element types (lane i = i, counted in the element type's own arithmetic)
+        lanes_eq(s, $name, concat!($name, " iota<i8>"), catch(|| <$V<i8>>::iota().de()), &(0..N as i8).collect::<Vec<_>>());
+        lanes_eq(s, $name, concat!($name, " iota<i64>"), catch(|| <$V<i64>>::iota().de()), &(0..N as i64).collect::<Vec<_>>());
+        lanes_eq(s, $name, concat!($name, " iota<u64>"), catch(|| <$V<u64>>::iota().de()), &(0..N as u64).collect::<Vec<_>>());
+        lanes_eq(s, $name, concat!($name, " iota<f32>"), catch(|| <$V<f32>>::iota().de().into_iter().map(cb32).collect::<Vec<_>>()), &(0..N).map(|i| cb32(i as f32)).collect::<Vec<_>>());
+        lanes_eq(s, $name, concat!($name, " iota<f64>"), catch(|| <$V<f64>>::iota().de().into_iter().map(cb64).collect::<Vec<_>>()), &(0..N).map(|i| cb64(i as f64)).collect::<Vec<_>>());
+        lanes_eq(s, $name, concat!($name, " iota<Wrapping<u16>>"), catch(|| <$V<Wrapping<u16>>>::iota().de()), &(0..N as u16).map(Wrapping).collect::<Vec<_>>());
+        if s.wants_sample() { s.sample(json!({"type": $name, "source": "yields src[0], then None once, then src[1], src[2], ...", "from_iter": jd(&{ let (mut i, mut gap) = (0usize, false);
+            std::iter::from_fn(|| { if i == 1 && !gap { gap = true; return None; } let r = src[i % M]; i += 1; Some(r) }).collect::<$V<Term>>().de() })})); }
+    }
+    run($s);
+}} }
+
+// ------------------------------------------------------------------------------------------------
+// 16. reduce_and / reduce_or: pairs of non-zero lanes that cancel under a fold
+// ------------------------------------------------------------------------------------------------
+/// two non-zero lanes (x at j, y at k) whose sum / wrapping sum / xor / and / product (wrapping or underflowing) is zero,
+/// over all-zero backgrounds (reduce_or must stay true) and over all-one backgrounds (reduce_and must stay true)
+#[inline(never)]
+fn prim_reduce_pairs<P: Prim>(s: &Section, ty: &str, wrap: &str, n: usize, f: &dyn Fn(&[P]) -> (bool, bool)) {
+    let (site_and, site_or) = (format!("{} reduce_and<{}{}>", ty, wrap, P::NAME), format!("{} reduce_or<{}{}>", ty, wrap, P::NAME));
+    let mut bgs: Vec<Vec<P>> = P::zeros().into_iter().map(|z| vec![z; n]).collect();
+    bgs.push(vec![P::small(1); n]);
+    let mut count = 0u64;
+    for (pi, &(x, y)) in P::cancel_pairs().iter().enumerate() { for bg in &bgs { for j in 0..n { for k in [(j + 1) % n, (j + n / 2) % n, (j + n - 1) % n] {
+        if k == j { continue; }
+        let mut v = bg.clone(); v[j] = x; v[k] = y;
+        count += 2;
+        let mixed = v.iter().any(|x| x.is_zero_ref()) && v.iter().any(|x| !x.is_zero_ref());
+        s.evals(2, if mixed { 2 } else { 0 });
+        match catch(|| f(&v)) {
+            Ok((a, o)) => {
+                if a != v.iter().all(|x| !x.is_zero_ref()) { s.violation_w(&site_and, "wrong-value", json!({"lanes": jd(&v), "got": a}), (4 + pi) as u64); }
+                if o != v.iter().any(|x| !x.is_zero_ref()) { s.violation_w(&site_or, "wrong-value", json!({"lanes": jd(&v), "got": o}), (4 + pi) as u64); }
+            }
+            Err(e) => s.violation(&site_and, "panic", json!({"lanes": jd(&v), "error": jd(&e)})),
+        }
+    } } } }
+    s.class_n(ty, count);
+    s.class_n(&format!("{}{}", wrap, P::NAME), count);
+}
+macro_rules! boolred_pairs_ty { ($s:expr, $V:ident, $name:literal, $N:expr, $kind:ident, [$($i:tt)+]) => {{
+    #[inline(never)]
+    fn run(s: &Section) {
+        macro_rules! int { ($P:ident) => {
+            prim_reduce_pairs::<$P>(s, $name, "", $N, &|l| { let v = <$V<$P>>::mk(l); (v.reduce_and(), v.reduce_or()) });
+            prim_reduce_pairs::<$P>(s, $name, "Wrapping ", $N, &|l| { let v = <$V<Wrapping<$P>>>::mk(&l.iter().map(|x| Wrapping(*x)).collect::<Vec<_>>()); (v.reduce_and(), v.reduce_or()) });
+        } }
+        int!(i8); int!(u8); int!(i16); int!(u16); int!(i32); int!(u32); int!(i64); int!(u64);
+        prim_reduce_pairs::<f32>(s, $name, "", $N, &|l| { let v = <$V<f32>>::mk(l); (v.reduce_and(), v.reduce_or()) });
+        prim_reduce_pairs::<f64>(s, $name, "", $N, &|l| { let v = <$V<f64>>::mk(l); (v.reduce_and(), v.reduce_or()) });
+        if s.wants_sample() { let l: Vec<f32> = (0..$N).map(|i| if i == 0 { 1.0 } else if i == $N - 1 { -1.0 } else { 0.0 }).collect(); let v = <$V<f32>>::mk(&l); s.sample(json!({"type": $name, "lanes": l, "reduce_and": v.reduce_and(), "reduce_or": v.reduce_or()})); }
+    }
+    run($s);
+}} }
+
+// ------------------------------------------------------------------------------------------------
+// 17. operators, fused multiply-add and reductions on lanes holding the constants 0 and 1 and equal operands (free terms)
+// ------------------------------------------------------------------------------------------------
+/// In the free term algebra `x + 0` is literally `add(x, 0)`: an implementation that special-cases a zero / one / equal operand
+/// (legal only for some element types: -0.0 + 0.0, inf * 0, NaN - NaN, 0 / 0 ...) returns a different term.
+macro_rules! special_ty { ($s:expr, $V:ident, $name:literal, $N:expr, $kind:ident, [$($i:tt)+]) => {{
+    #[inline(never)]
+    fn run(s: &Section) {
+        use vek::ops::MulAdd;
+        const N: usize = $N;
+        let (z, o) = (Term::cst(0), Term::cst(1));
+        for r in 0..10usize {
+            let pick = |i: usize| -> (Term, Term) { let (va, vb) = (Term::var(i as u32), Term::var(100 + i as u32));
+                match (i + r) % 10 { 0 => (va, z), 1 => (z, vb), 2 => (va, o), 3 => (o, vb), 4 => (va, va), 5 => (z, z), 6 => (o, o), 7 => (z, o), 8 => (o, z), _ => (va, vb) } };
+            let ta: Vec<Term> = (0..N).map(|i| pick(i).0).collect();
+            let tb: Vec<Term> = (0..N).map(|i| pick(i).1).collect();
+            let tc: Vec<Term> = (0..N).map(|i| match (i + r / 2) % 5 { 0 => z, 1 => o, 2 => ta[i], 3 => tb[i], _ => Term::var(200 + i as u32) }).collect();
+            let sc = [z, o, Term::var(0), Term::var(999)][r % 4];
+            let s2 = [o, Term::var(999), z, Term::var(0)][r % 4];
+            let (a, b, c) = (<$V<Term>>::mk(&ta), <$V<Term>>::mk(&tb), <$V<Term>>::mk(&tc));
+            macro_rules! one { ($op:tt, $opa:tt, $sym:literal, $tn:literal) => {{
+                let wv: Vec<Term> = (0..N).map(|i| Term::bin($tn, ta[i], tb[i])).collect();
+                let ws: Vec<Term> = (0..N).map(|i| Term::bin($tn, ta[i], sc)).collect();
+                lanes_eq(s, $name, concat!($name, " ", $sym, " V∘V on lanes holding 0 / 1 / equal operands"), catch(|| (a $op b).de()), &wv);
+                lanes_eq(s, $name, concat!($name, " ", $sym, " V∘&V on lanes holding 0 / 1 / equal operands"), catch(|| (a $op &b).de()), &wv);
+                lanes_eq(s, $name, concat!($name, " ", $sym, " &V∘V on lanes holding 0 / 1 / equal operands"), catch(|| (&a $op b).de()), &wv);
+                lanes_eq(s, $name, concat!($name, " ", $sym, " &V∘&V on lanes holding 0 / 1 / equal operands"), catch(|| (&a $op &b).de()), &wv);
+                lanes_eq(s, $name, concat!($name, " ", $sym, " V∘T on lanes holding 0 / 1 / equal operands"), catch(|| (a $op sc).de()), &ws);
+                lanes_eq(s, $name, concat!($name, " ", $sym, " &V∘T on lanes holding 0 / 1 / equal operands"), catch(|| (&a $op sc).de()), &ws);
+                lanes_eq(s, $name, concat!($name, " ", $sym, " &V∘&T on lanes holding 0 / 1 / equal operands"), catch(|| (&a $op &sc).de()), &ws);
+                lanes_eq(s, $name, concat!($name, " ", $sym, " V∘=V on lanes holding 0 / 1 / equal operands"), catch(|| { let mut m = a; m $opa b; m.de() }), &wv);
+                lanes_eq(s, $name, concat!($name, " ", $sym, " V∘=T on lanes holding 0 / 1 / equal operands"), catch(|| { let mut m = a; m $opa sc; m.de() }), &ws);
+            }} }
+            one!(+, +=, "Add", "add"); one!(-, -=, "Sub", "sub"); one!(*, *=, "Mul", "mul"); one!(/, /=, "Div", "div"); one!(%, %=, "Rem", "rem");
+            one!(<<, <<=, "Shl", "shl"); one!(>>, >>=, "Shr", "shr"); one!(&, &=, "BitAnd", "and"); one!(|, |=, "BitOr", "or"); one!(^, ^=, "BitXor", "xor");
+            let un = |n: &'static str| -> Vec<Term> { (0..N).map(|i| Term::un(n, ta[i])).collect() };
+            lanes_eq(s, $name, concat!($name, " Neg on lanes holding 0 / 1"), catch(|| (-a).de()), &un("neg"));
+            lanes_eq(s, $name, concat!($name, " Not on lanes holding 0 / 1"), catch(|| (!a).de()), &un("not"));
+            let fma = |m: &dyn Fn(usize) -> Term, d: &dyn Fn(usize) -> Term| -> Vec<Term> { (0..N).map(|i| Term::tri("fma", ta[i], m(i), d(i))).collect() };
+            let w = fma(&|i| tb[i], &|i| tc[i]);
+            lanes_eq(s, $name, concat!($name, " MulAdd V.(V,V) on lanes holding 0 / 1 / equal operands"), catch(|| MulAdd::mul_add(a, b, c).de()), &w);
+            lanes_eq(s, $name, concat!($name, " MulAdd &V.(V,V) on lanes holding 0 / 1 / equal operands"), catch(|| MulAdd::mul_add(&a, b, c).de()), &w);
+            lanes_eq(s, $name, concat!($name, " MulAdd V.(V,&V) on lanes holding 0 / 1 / equal operands"), catch(|| MulAdd::mul_add(a, b, &c).de()), &w);
+            lanes_eq(s, $name, concat!($name, " MulAdd &V.(V,&V) on lanes holding 0 / 1 / equal operands"), catch(|| MulAdd::mul_add(&a, b, &c).de()), &w);
+            lanes_eq(s, $name, concat!($name, " MulAdd V.(&V,V) on lanes holding 0 / 1 / equal operands"), catch(|| MulAdd::mul_add(a, &b, c).de()), &w);
+            lanes_eq(s, $name, concat!($name, " MulAdd &V.(&V,V) on lanes holding 0 / 1 / equal operands"), catch(|| MulAdd::mul_add(&a, &b, c).de()), &w);
+            lanes_eq(s, $name, concat!($name, " MulAdd V.(&V,&V) on lanes holding 0 / 1 / equal operands"), catch(|| MulAdd::mul_add(a, &b, &c).de()), &w);
+            lanes_eq(s, $name, concat!($name, " MulAdd &V.(&V,&V) on lanes holding 0 / 1 / equal operands"), catch(|| MulAdd::mul_add(&a, &b, &c).de()), &w);
+            lanes_eq(s, $name, concat!($name, " mul_add(V,V) on lanes holding 0 / 1 / equal operands"), catch(|| a.mul_add(b, c).de()), &w);
+            lanes_eq(s, $name, concat!($name, " mul_add(T,V) on lanes holding 0 / 1 / equal operands"), catch(|| a.mul_add(sc, c).de()), &fma(&|_| sc, &|i| tc[i]));
+            lanes_eq(s, $name, concat!($name, " mul_add(V,T) on lanes holding 0 / 1 / equal operands"), catch(|| a.mul_add(b, s2).de()), &fma(&|i| tb[i], &|_| s2));
+            lanes_eq(s, $name, concat!($name, " mul_add(T,T) on lanes holding 0 / 1 / equal operands"), catch(|| a.mul_add(sc, s2).de()), &fma(&|_| sc, &|_| s2));
+            // reductions: every lane takes part, also a zero / one / repeated lane
+            ac_eq(s, $name, concat!($name, " sum on lanes holding 0 / 1 / repeats"), "add", None, catch(|| b.sum()), &tb);
+            ac_eq(s, $name, concat!($name, " product on lanes holding 0 / 1 / repeats"), "mul", None, catch(|| b.product()), &tb);
+            ac_eq(s, $name, concat!($name, " reduce_bitand on lanes holding 0 / 1 / repeats"), "and", None, catch(|| b.reduce_bitand()), &tb);
+            ac_eq(s, $name, concat!($name, " reduce_bitor on lanes holding 0 / 1 / repeats"), "or", None, catch(|| b.reduce_bitor()), &tb);
+            ac_eq(s, $name, concat!($name, " reduce_bitxor on lanes holding 0 / 1 / repeats"), "xor", None, catch(|| b.reduce_bitxor()), &tb);
+            {
+                s.eval(true); s.class($name);
+                let site = concat!($name, " average on lanes holding 0 / 1 / repeats");
+                match catch(|| b.average()) {
+                    Ok(t) => match t.node() {
+                        vx::term::Node::Bin("div", num, den) if den == Term::cst(N as i64) && num.ac_leaves("add") == sorted(tb.clone()) => {}
+                        _ => s.violation(site, "wrong-value", json!({"lanes": jd(&tb), "got_term": jd(&t), "want": format!("div(sum of the {} lanes, {})", N, N)})),
+                    },
+                    Err(e) => s.violation(site, "panic", json!({"error": jd(&e)})),
+                }
+            }
+            let want_fold = tb[1..].iter().fold(tb[0], |acc, x| Term::bin("f", acc, *x));
+            scalar_eq(s, $name, concat!($name, " reduce(f) on lanes holding 0 / 1 / repeats"), &|| json!({"lanes": jd(&tb)}), catch(|| b.reduce(|x, y| Term::bin("f", x, y))), &want_fold, 0);
+            let cat: Vec<Term> = ta.iter().chain(tb.iter()).copied().collect();
+            let want_h: Vec<Vec<Term>> = (0..N).map(|i| vec![cat[2 * i], cat[2 * i + 1]]).collect();
+            ac_lanes_eq(s, $name, concat!($name, " hadd on lanes holding 0 / 1 / equal operands"), "add", None, catch(|| a.hadd(b).de()), &want_h);
+            if_spatial!($kind, {
+                dot_eq(s, $name, concat!($name, " dot on lanes holding 0 / 1 / equal operands"), catch(|| a.dot(b)), &ta, &tb);
+                dot_eq(s, $name, concat!($name, " dot on lanes holding 0 / 1 / equal operands"), catch(|| b.dot(c)), &tb, &tc);
+                dot_eq(s, $name, concat!($name, " magnitude_squared on lanes holding 0 / 1 / repeats"), catch(|| b.magnitude_squared()), &tb, &tb);
+            });
+            if r == 0 && s.wants_sample() { s.sample(json!({"type": $name, "a": jd(&ta), "b": jd(&tb), "a * b decoded through fields": jd(&(a * b).de()), "b.product()": jd(&b.product())})); }
+        }
+    }
+    run($s);
+}} }
+
 fn main() {
     let rep = Report::start("C02", "exploration");
 
@@ -1158,7 +1407,7 @@ fn main() {
         "13 types; bool: all 2^N vectors for N <= 16, every vector within <= 2 deviations of all-true / all-false for N = 32, 64; i8..u64, Wrapping<i8..u64>, f32, f64 (zero, -0.0 = false; everything else incl. NaN = true): all-zero, all-nonzero, one non-zero lane at every position, one zero lane at every position, for every (zero, non-zero) value pair of the alphabet, plus mixed non-zero values (thorough: plus two deviating lanes at every pair of positions); both reductions compared with all()/any(); one evaluation per (vector, function); non-trivial: vector has both true and false lanes",
         true, false, |s| { s.require_classes(&ALL_TYPES); s.require_classes(&["Wrapping u64", "f32", "i8"]); for_all_vecs!(boolred_ty, s); });
     rep.section("min/max/partial_min/partial_max, 12 comparison masks, reduce_min/max (concrete ordered lanes)",
-        "13 types; i32: lane i holds the pair P[(r + i*k) mod |P|], P = all ordered pairs over {-2,0,3} (thorough: {MIN,-2,0,3,MAX}), every rotation r and strides k in {1,2,5} (thorough {1,2,3,5,7,11}; f64: {1,5,7}, thorough {1,2,3,5,7,11,13}), so every lane meets every relation <,=,> with varying neighbours: min max partial_min partial_max with (V,V) and (V,scalar) operands and the 24 masks cmp*/partial_cmp* and their by-value *_simd twins vs the scalar relation per lane; f64: pairs over {-1,-0,+0,1,inf,NaN}: partial_min/partial_max (asserted: result is bitwise one of the two operands; equals the textbook min/max when neither is NaN, ties open) and the 6 partial masks and their *_simd twins (IEEE relations); reduce_min/max/partial_min/partial_max on every rotation of 0..N and of its reverse, all-equal, and +1/-1 at every single position (f64 copies incl. signed zeros; with a NaN lane only 'is one of the elements' is asserted); one evaluation per (vector pair, function); non-trivial: lanes do not all carry the same relation / min != max / no NaN",
+        "13 types; i32: lane i holds the pair P[(r + i*k) mod |P|], P = all ordered pairs over {MIN,-2,0,3,MAX} (thorough: plus MIN+1, MAX-1), every rotation r and strides k in {1,2,7} (thorough {1,2,3,5,7,11}; f64: {1,5,7}, thorough {1,2,3,5,7,11,13}), so every lane meets every relation <,=,> with varying neighbours: min max partial_min partial_max with (V,V) and (V,scalar) operands and the 24 masks cmp*/partial_cmp* and their by-value *_simd twins vs the scalar relation per lane; f64: pairs over {-1,-0,+0,1,inf,NaN,-inf,5e-324,1+ulp}: partial_min/partial_max (asserted: result is bitwise one of the two operands; equals the textbook min/max when neither is NaN, ties open) and the 6 partial masks and their *_simd twins (IEEE relations); reduce_min/max/partial_min/partial_max on every rotation of 0..N and of its reverse, all-equal, +1/-1 at every single position, i32::MIN / i32::MAX at every position alone and next to the opposite extreme (f64 copies incl. signed zeros; with a NaN lane only 'is one of the elements' is asserted); one evaluation per (vector pair, function); non-trivial: lanes do not all carry the same relation / min != max / no NaN",
         true, false, |s| { s.require_classes(&ALL_TYPES); for_all_vecs!(order_ty, s); });
     rep.section("sqrt rsqrt recip ceil floor round on f64 lanes, is_any_negative / are_all_positive on i32",
         "13 types; three lane-distinct f64 generators (perfect squares, fractional positives, signed values with .0/.125 offsets incl. negative) in every rotation: each lane must carry the scalar function of that lane (bit-identical; rsqrt = 1/sqrt within the derived 256-eps bound); sign predicates on all-positive, all-negative, all-zero and one deviating lane (negative / zero / positive) at every position; non-trivial: all float cases; predicates: lanes of mixed sign",
@@ -1178,7 +1427,7 @@ fn main() {
         "13 types: three sequences of compound assignments (all 10 operators, vector and scalar right-hand sides, interleaved with a by-value operator and with the vector as its own right-hand side) and apply; apply2; apply3; apply, each acting on the state left by the previous call: lane i must be the nested scalar term of lane i; map map2 map3 apply apply2 apply3 call their closure exactly N times; one evaluation per (type, sequence); non-trivial: all",
         true, true, |s| { s.require_classes(&ALL_TYPES); for_all_vecs!(seq_ty, s); });
     rep.section("float functions on special values, rounding ties, f32 lanes; sign predicates on i8 i64 f32 f64",
-        "13 types x {f64, f32}: sqrt rsqrt recip ceil floor round on 27 special values (signed zeros, +-0.5 +-1.5 +-2.5 ties, the largest float below 0.5, negative arguments, 2^52+1 resp. 2^23+1, huge, MAX, MIN, MIN_POSITIVE, subnormal, infinities, NaN) laid out in every rotation with strides {1,7} (thorough {1,2,3,5,7,11,13}) and alone at every single lane: each lane must carry the scalar function of that lane (same bits, any NaN equals any NaN; rsqrt on finite non-zero results within the derived 256-eps bound); is_any_negative / are_all_positive on i8, i64 (incl. MIN, MAX, zero) and on non-zero, non-NaN f32 / f64 (incl. infinities and subnormals; the sign of a zero is left open): all-positive, all-negative, all-zero backgrounds with one deviating lane at every position (thorough: two); non-trivial: all float cases; predicates: negative and non-negative lanes mixed",
+        "13 types x {f64, f32}: sqrt rsqrt recip ceil floor round on 41 special values (signed zeros, +-0.5 +-1.5 +-2.5 ties, the largest float below 0.5, negative arguments, 2^52+1 resp. 2^23+1, huge, MAX, MIN, MIN_POSITIVE, subnormal, infinities, NaN, and 14 values one or a few ulps away from 1, -1, 2, 1.5, 2.5 and 0) laid out in every rotation with strides {1,7} (thorough {1,2,3,5,7,11,13}) and alone at every single lane: each lane must carry the scalar function of that lane (same bits, any NaN equals any NaN; rsqrt on finite non-zero results within the derived 256-eps bound); is_any_negative / are_all_positive on i8, i64 (incl. MIN, MAX, zero) and on non-zero, non-NaN f32 / f64 (incl. infinities and subnormals; the sign of a zero is left open): all-positive, all-negative, all-zero backgrounds with one deviating lane at every position (thorough: two); non-trivial: all float cases; predicates: negative and non-negative lanes mixed",
         true, false, |s| { s.require_classes(&ALL_TYPES); s.require_classes(&["f32", "f64", "i8", "i64"]); for_all_vecs!(float2_ty, s); });
     rep.section("min/max/partial_min/partial_max with the scalar first and with two scalars (concrete i32 lanes)",
         "13 types x {min, max, partial_min, partial_max} x {(scalar, vector), (scalar, scalar)}: vectors = every rotation of {MIN,-2,0,3,MAX} (thorough 9 values) with strides {1,2} (thorough {1,2,3,5,7}) and every value alone at every single lane, scalar = every alphabet value; lane i must be the scalar min/max of (t, b_i) resp. of the two scalars; non-trivial: lanes do not all carry the same relation to the scalar / the two scalars differ",
@@ -1186,6 +1435,20 @@ fn main() {
     rep.section("operators on concrete machine lanes: i8 operand pairs, f64 special values, Neg / Not on i8 i64 bool",
         "13 types; i8: 10 binary operators x 5 forms (V∘V, &V∘&V, V∘=V, V∘T, V∘=T) on every operand pair of the alphabet (17 boundary values, thorough: all 256 x 256 pairs) on which the scalar operation is defined (checked_*; shifts 0..7; overflowing, zero-divisor and out-of-range-shift pairs panic and are outside the property), dealt over the lanes twice in different orders; scalar forms: for every right operand all defined left operands dealt over the lanes; f64: Add Sub Mul Div Rem x the same 5 forms on all pairs of 16 special values (same bits, any NaN equals any NaN); Neg on all i8 but MIN and on 9 i64 values, Not on all i8 and on bool lanes; every lane must equal the scalar operation on the operands' lanes; one evaluation per vector operation; non-trivial: lanes do not all carry the same result",
         true, false, |s| { s.require_classes(&ALL_TYPES); s.require_classes(&["i8", "f64"]); for_all_vecs!(concrete_ty, s); });
+
+    // ---- sections added by audit round 2 ---------------------------------------------------------
+    rep.section("as_ / numcast on conversion pairs that do not survive a detour through another type",
+        "13 types x {f64->f32, f64->f64, f32->f64, f32->i64, f64->u64, u64->u64, u64->i64, u64->f32, i64->i64, i64->f32, i64->i8}: alphabets with fractions, f32 rounding ties, values above 2^53 / 2^63 / i64::MAX / f32::MAX, the double-rounding witness 2^60+2^36+1 (rounds up to f32 directly, down via f64), subnormals, NaN and infinities; float results compared as bit patterns (NaN canonicalised); same lane layouts as the first cast section (rotations x strides {1,3}, thorough {1,2,3,5,7,11}; every value alone at every lane over a convertible fill; rotations of the convertible values); as_: lane i = scalar `as` cast; numcast: Some(scalar NumCast of every lane) iff every lane converts; non-trivial as in the first cast section",
+        true, false, |s| { s.require_classes(&ALL_TYPES); s.require_classes(&["numcast-some", "numcast-none", "numcast-none-single-lane"]); for_all_vecs!(cast2_ty, s); });
+    rep.section("from_iter on sources that resume after None or never end, slice-view trait forms, iota on more element types (free terms)",
+        "13 types: from_iter from a source that returns None once after k items and then yields again, for every k in 0..=N (the sequence ends at the first None: k items in order, rest Default); from endless sources whose size_hint lower bound is usize::MAX (range map, take(usize::MAX), cycle, repeat, exact prefix of length 0, 1, N/2, N-1 chained with an endless tail): the first N items in order; AsRef<[T]> Borrow<[T]> Deref AsRef<Self> read and AsMut<[T]> BorrowMut<[T]> DerefMut AsMut<Self> write the N lanes in lane order (length N); iota on i8 i64 u64 f32 f64 Wrapping<u16>: lane i = i; one evaluation per (type, function[, k]); non-trivial: all",
+        true, false, |s| { s.require_classes(&ALL_TYPES); for_all_vecs!(ctor2_ty, s); });
+    rep.section("reduce_and / reduce_or: two non-zero lanes that cancel under a fold (non-generic impls)",
+        "13 types x {i8..u64, Wrapping<i8..u64>, f32, f64}: for every pair (x, y) of non-zero values whose sum, wrapping sum, xor, bitwise and, wrapping product or underflowing product is zero (1/-1, MAX/MIN+1, MIN/MIN, 1/MAX, 5/5, 1/2, 2^(bits/2) twice, top bit twice; floats: 1/-1, MAX/-MAX, inf/-inf, MIN_POSITIVE twice, +-subnormal, NaN/NaN, eps/-eps), x at lane j and y at lane j+1, j-1 and j+N/2 (cyclic) for every j, over every all-zero background (+0 and -0 for floats) and the all-one background; both reductions compared with all()/any() of 'lane != 0'; one evaluation per (vector, function); non-trivial: vector has zero and non-zero lanes",
+        true, false, |s| { s.require_classes(&ALL_TYPES); s.require_classes(&["Wrapping u64", "Wrapping i8", "f32", "f64", "i8", "u64"]); for_all_vecs!(boolred_pairs_ty, s); });
+    rep.section("operators, mul_add and reductions on lanes holding 0, 1 and equal operands (free terms)",
+        "13 types x 10 rotations of the lane pattern (x,0) (0,y) (x,1) (1,y) (x,x) (0,0) (1,1) (0,1) (1,0) (x,y) (third operand cycling through 0, 1, a_i, b_i, free; scalars cycling through 0, 1, a lane's own variable, free): 10 binary operators x 9 forms (7 operand forms + 2 compound assignments), Neg, Not, 8 MulAdd trait forms, 4 inherent mul_add forms, sum product reduce_bitand/bitor/bitxor average reduce(f) hadd, dot and magnitude_squared on the 9 spatial types; in the free term algebra op(x, 0) is literally the term op(x, 0), so any zero / one / equal-operand fast path (wrong for -0.0 + 0.0, inf * 0, NaN - NaN, 0 / 0) shows as a different term; one evaluation per (type, rotation, configuration); non-trivial: all",
+        true, false, |s| { s.require_classes(&ALL_TYPES); for_all_vecs!(special_ty, s); });
 
     std::process::exit(rep.finish());
 }
